@@ -338,6 +338,18 @@ class Engine:
                 return mf.get(last, file_hint=hint, kind="fn")
             except Unsupported as e:
                 errs.append(str(e))
+        # several items share the name: `Type::method` / `<Type as Trait>::method` — keep the one whose receiver is `Type`
+        tyname = None
+        if m:
+            tyname = strip_generics(m.group(1)).split("::")[-1].lstrip("&").strip()
+        elif "::" in name:
+            tyname = name.split("::")[-2]
+        if tyname and re.match(r"^\w+$", tyname):
+            for mf in self.mirs:
+                cands = [c for c in mf.find(last, file_hint=hint, kind="fn") if "closure" not in c[0]]
+                keep = [c for c in cands if re.search(r"\(_1: &?(mut )?(\w+::)*%s[,)<]" % re.escape(tyname), mf.lines[c[2]])]
+                if len(set(c[0] for c in keep)) == 1:
+                    return mf.parse_item(keep[0][2])
         raise Unsupported("cannot resolve callee %r: %s" % (callee, errs))
 
     # ------------------------------------------------------------ memory
@@ -392,6 +404,12 @@ class Engine:
                     return v.over[key]
                 return self.mk_sym(elem_type(v.ty), "%s[%d]" % (v.name, i))
             raise Unsupported("index of %r" % (v,))
+        if k == "subslice":
+            frm, to, from_end = step[1], step[2], step[3]
+            if isinstance(v, Arr):
+                hi = len(v.items) - to if from_end else to
+                return Arr(v.items[frm:hi], v.kind)
+            raise Unsupported("subslice of %r" % (v,))
         raise Unsupported("projection %r" % (step,))
 
     def _update(self, v, path, new):
@@ -476,6 +494,20 @@ class Engine:
                 if not z3.is_bv_value(iv):
                     raise Unsupported("symbolic index %r" % (iv,))
                 path.append(("index_c", iv.as_long() + slice_off))
+                slice_off = 0
+                slice_len = None
+            elif step[0] in ("subslice", "constindex") and (slice_off or slice_len is not None):
+                # relative to a `Slice[ref, lo(, hi)]` view: make it absolute in the underlying sequence
+                base = self.read_at(st, root, path)
+                if not isinstance(base, Arr):
+                    raise Unsupported("%s of a view of %r" % (step[0], base))
+                vlen = slice_len if slice_len is not None else len(base.items) - slice_off
+                if step[0] == "constindex":
+                    i = step[1]
+                    path.append(("index_c", slice_off + (vlen - i if step[3] else i)))
+                else:
+                    frm, to, from_end = step[1], step[2], step[3]
+                    path.append(("subslice", slice_off + frm, slice_off + (vlen - to if from_end else to), False))
                 slice_off = 0
                 slice_len = None
             else:
